@@ -31,13 +31,15 @@ def check(ctx):
         ctx.ob("R-ORDER", "may::join::JoinHandle::join", "payload-returned", ok, "join() falls back to the stored panic payload when there is no result" if ok else
                "join() no longer reads the panic slot", f.where())
     shared.poison_rules(ctx)
+    # a child's panic re-raised by a scoped join must not detach the siblings that are still to be joined
+    shared.scope_dtor_chain_rules(ctx)
     # guards release also when poisoning
     MD = "<may::sync::mutex::MutexGuard as std::ops::Drop>::drop"
     ctx.must_call(MD, Call(r"may::sync::mutex::Mutex::unlock"), "mutex-guard-drop-unlocks", "a MutexGuard dropped by a panic still releases the lock")
     ctx.order(MD, Call(r"may::sync::poison::Flag::done"), Call(r"may::sync::mutex::Mutex::unlock"), "mutex-poison-then-unlock", "poison is set before the lock is released")
     WD = "<may::sync::rwlock::RwLockWriteGuard as std::ops::Drop>::drop"
-    ctx.must_call(WD, Call(r"may::sync::rwlock::RwLock::write_unlock"), "rw-guard-drop-unlocks", "a RwLockWriteGuard dropped by a panic still releases the lock")
-    ctx.order(WD, Call(r"may::sync::poison::Flag::done"), Call(r"may::sync::rwlock::RwLock::write_unlock"), "rw-poison-then-unlock", "poison is set before the lock is released")
+    ctx.must_call(WD, Call(r"may::sync::rwlock::RwLock::unlock"), "rw-guard-drop-unlocks", "a RwLockWriteGuard dropped by a panic still releases the lock")
+    ctx.order(WD, Call(r"may::sync::poison::Flag::done"), Call(r"may::sync::rwlock::RwLock::unlock"), "rw-poison-then-unlock", "poison is set before the lock is released")
     RD = "<may::sync::rwlock::RwLockReadGuard as std::ops::Drop>::drop"
     ctx.never(RD, Call(r"may::sync::poison::Flag::done"), "read-guard-never-poisons", "read guards never poison")
     # map_result constructs the guard on both arms
